@@ -9,9 +9,10 @@ impl StoreInstance {
             tables_wf(old(self).store.tables),
             entry@.id.wf(),
         ensures
-            r is Ok ==> proj(final(self).store.tables.records@, entry@.id.ns) =~= put_spec(proj(old(self).store.tables.records@, entry@.id.ns), ent_of(entry@)),
+            r is Ok ==> proj(final(self).store.tables.records@, entry@.id.ns) =~= put_spec(proj(old(self).store.tables.records@, entry@.id.ns), ent_of_entry(entry@)),
             r is Ok ==> (forall|ns2: Seq<u8>| ns2 != entry@.id.ns ==> #[trigger] proj(final(self).store.tables.records@, ns2) =~= proj(old(self).store.tables.records@, ns2)),
-            r is Ok ==> hproj(final(self).store.tables.latest_per_author@, entry@.id.ns) =~= head_spec(hproj(old(self).store.tables.latest_per_author@, entry@.id.ns), proj(old(self).store.tables.records@, entry@.id.ns), ent_of(entry@)),
-            r is Ok && r->Ok_0 is Inserted <==> r is Ok && !dominated_in(proj(old(self).store.tables.records@, entry@.id.ns), ent_of(entry@)),
+            r is Ok ==> hproj(final(self).store.tables.latest_per_author@, entry@.id.ns) =~= head_spec(hproj(old(self).store.tables.latest_per_author@, entry@.id.ns), proj(old(self).store.tables.records@, entry@.id.ns), ent_of_entry(entry@)),
+            r is Ok ==> tables_wf(final(self).store.tables),
+            r is Ok && r->Ok_0 is Inserted <==> r is Ok && !dominated_in(proj(old(self).store.tables.records@, entry@.id.ns), ent_of_entry(entry@)),
     { unimplemented!() }
 }
